@@ -1,8 +1,690 @@
-import PV.Model.Negotiate
+/-
+  C05 — Algorithm negotiation picks the client's first mutually supported algorithm.
+  Property theorems only.  Model: PV/Model/Negotiate.lean (helpers: NegotiateLemmas.lean);
+  tables regenerated from paramiko/transport.py on every run: PV/Generated/C05.lean.
+-/
+import PV.Model.NegotiateLemmas
 import PV.Generated.C05
 namespace PV.Props.C05
-open PV PV.Negotiate
+open PV PV.Wire PV.Negotiate
 
-theorem placeholder : firstCommon [] [] = none := rfl
+/-- the agreed algorithms in wire order (client→server before server→client), role independent -/
+structure View where
+  kex : Name
+  hostKey : Name
+  encC2S : Name
+  encS2C : Name
+  macC2S : Name
+  macS2C : Name
+  compC2S : Name
+  compS2C : Name
+  deriving DecidableEq, Repr
+
+/-- a transport's `local_*` is client→server on a client and server→client on a server -/
+def view (server : Bool) (a : Agreed) : View :=
+  if server then
+    { kex := a.kex, hostKey := a.hostKey, encC2S := a.remoteCipher, encS2C := a.localCipher,
+      macC2S := a.remoteMac, macS2C := a.localMac, compC2S := a.remoteComp, compS2C := a.localComp }
+  else
+    { kex := a.kex, hostKey := a.hostKey, encC2S := a.localCipher, encS2C := a.remoteCipher,
+      macC2S := a.localMac, macS2C := a.remoteMac, compC2S := a.localComp, compS2C := a.remoteComp }
+
+/-- eight optional choices → a full agreement, or nothing if any category has no choice -/
+def allSome (k hk e1 e2 m1 m2 z1 z2 : Option Name) : Option View :=
+  match k, hk, e1, e2, m1, m2, z1, z2 with
+  | some k, some hk, some e1, some e2, some m1, some m2, some z1, some z2 =>
+    some { kex := k, hostKey := hk, encC2S := e1, encS2C := e2, macC2S := m1, macS2C := m2,
+           compC2S := z1, compS2C := z2 }
+  | _, _, _, _, _, _, _, _ => none
+
+/-- **Specification (RFC 4253 §7.1)** on the two KEXINITs: in every category the first name of the
+    client's list that the server's list contains; markers are not kex algorithms. -/
+def spec (kc ks : KexInit) : Option View :=
+  allSome (firstCommon (stripMarkers kc.kex) (stripMarkers ks.kex)) (firstCommon kc.keys ks.keys)
+    (firstCommon kc.cEnc ks.cEnc) (firstCommon kc.sEnc ks.sEnc)
+    (firstCommon kc.cMac ks.cMac) (firstCommon kc.sMac ks.sMac)
+    (firstCommon kc.cComp ks.cComp) (firstCommon kc.sComp ks.sComp)
+
+/-- negotiation succeeds with the specified tuple, or fails with `IncompatiblePeer` -/
+def outcome : Option View → Except Err View
+  | some v => .ok v
+  | none => .error .incompatible
+
+/-- the host key algorithms a side accepts: a server only those it holds a key for -/
+def ownKeys (s : Side) : List Name :=
+  if s.serverMode then s.availableServerKeys else s.preferredKeys
+
+private theorem availableServerKeys_sub {s : Side} {a : Name} (h : a ∈ s.availableServerKeys) :
+    a ∈ s.preferredKeys ∧ a ∈ s.serverKeys := by
+  simpa [Side.availableServerKeys] using h
+
+/-- core: `negotiate` = the role-aware first-common rule against the side's own accepted lists -/
+private theorem negotiate_core (info : Info) (s : Side) (hw : s.wf info = true)
+    (kl : List Name) (p : KexInit) (ext : Option Name) :
+    (negotiate info s kl p ext).map (view s.serverMode) = outcome (
+      allSome (fc s.serverMode s.preferredKex kl) (fc s.serverMode (ownKeys s) p.keys)
+        (fc s.serverMode s.preferredCiphers p.cEnc) (fc s.serverMode s.preferredCiphers p.sEnc)
+        (fc s.serverMode s.preferredMacs p.cMac) (fc s.serverMode s.preferredMacs p.sMac)
+        (fc s.serverMode s.preferredComp p.cComp) (fc s.serverMode s.preferredComp p.sComp)) := by
+  unfold negotiate
+  simp only [firstOr_agree, agree_len0, agree_headD]
+  have hwk : ∀ x ∈ s.prefKex, x ∈ info.kex := by
+    have : s.prefKex.all info.kex.contains = true := by
+      simp only [Side.wf, Bool.and_eq_true] at hw; exact hw.1.1.1.1
+    simpa using this
+  cases h1 : fc s.serverMode s.preferredKex kl with
+  | none => simp [allSome, outcome, Except.map]
+  | some kex =>
+    have hk : info.kex.contains kex = true := by
+      have := (fc_some h1).1
+      simpa using hwk _ (mem_filterAlg.mp this).1
+    simp only [hk, Bool.not_true, Bool.false_eq_true, if_false]
+    cases hsm : s.serverMode
+    · simp only [ownKeys, hsm, Bool.false_eq_true, if_false, Bool.false_and]
+      cases h2 : fc false s.preferredKeys p.keys <;>
+      cases h3 : fc false s.preferredCiphers p.cEnc <;>
+      cases h4 : fc false s.preferredCiphers p.sEnc <;>
+      cases h5 : fc false s.preferredMacs p.cMac <;>
+      cases h6 : fc false s.preferredMacs p.sMac <;>
+      cases h7 : fc false s.preferredComp p.cComp <;>
+      cases h8 : fc false s.preferredComp p.sComp <;>
+      simp [allSome, outcome, Except.map, view]
+    · simp only [ownKeys, hsm, if_true, Bool.true_and]
+      cases h2 : fc true s.availableServerKeys p.keys with
+      | none => simp [allSome, outcome, Except.map]
+      | some hostKey =>
+        have hsk : s.serverKeys.contains hostKey = true := by
+          have := (availableServerKeys_sub (fc_some h2).1).2
+          simpa using this
+        simp only [hsk, Bool.not_true, Bool.false_eq_true, if_false]
+        cases h3 : fc true s.preferredCiphers p.cEnc <;>
+        cases h4 : fc true s.preferredCiphers p.sEnc <;>
+        cases h5 : fc true s.preferredMacs p.cMac <;>
+        cases h6 : fc true s.preferredMacs p.sMac <;>
+        cases h7 : fc true s.preferredComp p.cComp <;>
+        cases h8 : fc true s.preferredComp p.sComp <;>
+        simp [allSome, outcome, Except.map, view]
+
+/-- what a successful `_send_kex_init` does, in closed form -/
+private theorem send_spec {info : Info} {s s1 : Side} {k : KexInit}
+    (h : sendKexInit info s = .ok (s1, k)) :
+    s1 = { s with prefKex := if s.mustDropGex then s.prefKex.filter (fun k => !isGex k) else s.prefKex } ∧
+    k = { kex := (if s.serverMode then s1.preferredKex else s1.preferredKex ++ [extInfoC]) ++
+                 (if s.advertiseStrict then [strictMarker s.serverMode] else []),
+          keys := ownKeys s1,
+          cEnc := s1.preferredCiphers, sEnc := s1.preferredCiphers,
+          cMac := s1.preferredMacs, sMac := s1.preferredMacs,
+          cComp := s1.preferredComp, sComp := s1.preferredComp } := by
+  unfold sendKexInit at h
+  by_cases hm : s.mustDropGex = true
+  · have hsm : s.serverMode = true := by
+      simp only [Side.mustDropGex, Bool.and_eq_true] at hm; exact hm.1.1
+    simp only [hm, if_true, setKex] at h
+    by_cases hv : (List.filter (fun n => !info.kex.contains n)
+        (List.filter (fun k => !isGex k) s.prefKex)).length > 0
+    · rw [if_pos hv] at h; cases h
+    · rw [if_neg hv] at h
+      injection h with h
+      injection h with h1 h2
+      subst h1 h2
+      refine ⟨by simp [hm], ?_⟩
+      by_cases hs : s.advertiseStrict = true <;> simp [ownKeys, hsm, hs]
+  · simp only [hm, Bool.false_eq_true, if_false] at h
+    injection h with h
+    injection h with h1 h2
+    subst h1 h2
+    refine ⟨by simp [hm], ?_⟩
+    by_cases hs : s.advertiseStrict = true <;> by_cases hsm : s.serverMode = true <;>
+      simp [ownKeys, hsm, hs]
+
+private theorem all_mem {l t : List Name} (h : l.all t.contains = true) : ∀ x ∈ l, x ∈ t := by
+  simpa using h
+
+private theorem wf_parts {info : Info} {s : Side} (hw : s.wf info = true) :
+    (∀ x ∈ s.prefKex, x ∈ info.kex) ∧ (s.prefKeys.all info.keys.contains = true) ∧
+    (∀ x ∈ s.prefCiphers, x ∈ info.ciphers) ∧ (∀ x ∈ s.prefMacs, x ∈ info.macs) ∧
+    (∀ x ∈ s.prefComp, x ∈ info.compression) := by
+  simp only [Side.wf, Bool.and_eq_true] at hw
+  exact ⟨all_mem hw.1.1.1.1, hw.1.1.1.2, all_mem hw.1.1.2, all_mem hw.1.2, all_mem hw.2⟩
+
+private theorem info_parts {info : Info} (hi : infoOK info = true) :
+    (∀ x ∈ info.kex, nameOK x = true) ∧ (∀ x ∈ info.keys, nameOK x = true ∧ nameOK (cert x) = true) ∧
+    (∀ x ∈ info.ciphers, nameOK x = true) ∧ (∀ x ∈ info.macs, nameOK x = true) ∧
+    (∀ x ∈ info.compression, nameOK x = true) := by
+  simp only [infoOK, Bool.and_eq_true, List.all_eq_true] at hi
+  exact ⟨hi.1.1.1.1, hi.1.1.1.2, hi.1.1.2, hi.1.2, hi.2⟩
+
+/-- every name a well-formed side accepts (and hence advertises) is a real algorithm name -/
+private theorem accepted_names_ok {info : Info} {s : Side} (hi : infoOK info = true) (hw : s.wf info = true) :
+    (∀ a ∈ s.preferredKex, nameOK a = true) ∧ (∀ a ∈ s.preferredKeys, nameOK a = true) ∧
+    (∀ a ∈ s.preferredCiphers, nameOK a = true) ∧ (∀ a ∈ s.preferredMacs, nameOK a = true) ∧
+    (∀ a ∈ s.preferredComp, nameOK a = true) := by
+  obtain ⟨w1, w2, w3, w4, w5⟩ := wf_parts hw
+  obtain ⟨i1, i2, i3, i4, i5⟩ := info_parts hi
+  refine ⟨fun a ha => i1 a (w1 a (mem_filterAlg.mp ha).1), ?_,
+    fun a ha => i3 a (w3 a (mem_filterAlg.mp ha).1), fun a ha => i4 a (w4 a (mem_filterAlg.mp ha).1),
+    fun a ha => i5 a (w5 a (mem_filterAlg.mp ha).1)⟩
+  intro a ha
+  rcases preferredKeys_sub w2 ha with h | ⟨b, hb, rfl⟩
+  · exact (i2 a h).1
+  · exact (i2 b hb).2
+
+private theorem wf_send {info : Info} {s s1 : Side} {k : KexInit} (hw : s.wf info = true)
+    (h : sendKexInit info s = .ok (s1, k)) : s1.wf info = true := by
+  obtain ⟨h1, _⟩ := send_spec h
+  obtain ⟨w1, w2, w3, w4, w5⟩ := wf_parts hw
+  subst h1
+  simp only [Side.wf, Bool.and_eq_true, List.all_eq_true]
+  refine ⟨⟨⟨⟨?_, by simpa using w2⟩, by simpa using w3⟩, by simpa using w4⟩, by simpa using w5⟩
+  intro x hx
+  split at hx
+  · simpa using w1 x (List.mem_filter.mp hx).1
+  · simpa using w1 x hx
+
+/-! ## the advertised lists are the accepted lists -/
+
+/-- After `_send_kex_init` (any role, with or without moduli) the KEXINIT carries exactly the lists
+    `_parse_kex_init` will accept, plus marker pseudo-algorithms in the kex list only.
+    (Before the repair the kex list of a moduli-less server still held the group-exchange methods.) -/
+theorem advertised_eq_accepted {info : Info} {s s1 : Side} {k : KexInit}
+    (hi : infoOK info = true) (hw : s.wf info = true) (h : sendKexInit info s = .ok (s1, k)) :
+    stripMarkers k.kex = s1.preferredKex ∧ k.keys = ownKeys s1 ∧
+    k.cEnc = s1.preferredCiphers ∧ k.sEnc = s1.preferredCiphers ∧
+    k.cMac = s1.preferredMacs ∧ k.sMac = s1.preferredMacs ∧
+    k.cComp = s1.preferredComp ∧ k.sComp = s1.preferredComp := by
+  have hw1 := wf_send hw h
+  obtain ⟨_, hk⟩ := send_spec h
+  have hnm : ∀ a ∈ s1.preferredKex, isMarker a = false :=
+    fun a ha => (nameOK_iff.mp ((accepted_names_ok hi hw1).1 a ha)).2.2
+  subst hk
+  refine ⟨?_, rfl, rfl, rfl, rfl, rfl, rfl, rfl⟩
+  have e1 : stripMarkers [extInfoC] = [] := by decide
+  have e2 : ∀ b, stripMarkers [strictMarker b] = [] := by intro b; cases b <;> decide
+  have e3 : stripMarkers [extInfoC, strictMarker false] = [] := by decide
+  by_cases hsm : s.serverMode = true <;> by_cases hst : s.advertiseStrict = true <;>
+    simp [hsm, hst, stripMarkers_append, stripMarkers_id hnm, e1, e2, e3]
+
+/-- the strict-kex sequence check cannot fire: KEXINIT is the first packet, or this is a rekey -/
+def SeqOK (s : Side) (seqno : Nat) : Prop := seqno = 0 ∨ s.initialKexDone = true
+
+private theorem map_lift (s1 : Side) (b : Bool) (x : Except Err Agreed) :
+    (match x with | .error e => (.error e : Except Err (Side × Agreed)) | .ok a => .ok (s1, a)).map
+      (fun (r : Side × Agreed) => view b r.2) = x.map (view b) := by
+  cases x <;> rfl
+
+/-- **Main theorem (one side against any peer).**  Let a well-formed transport of either role send
+    its KEXINIT `k`, then receive *any* KEXINIT `p` (unknown names, empty lists, duplicates, markers
+    anywhere).  Then `_parse_kex_init` ends in exactly one of two ways: it agrees, in every
+    category, on the first name of the client's list that the server's list contains (client's
+    list = `k` for a client, `p` for a server), or it raises `IncompatiblePeer` — the latter exactly
+    when some category has no common name. -/
+theorem follows_rfc {info : Info} {s s1 : Side} {k : KexInit}
+    (hi : infoOK info = true) (hw : s.wf info = true) (hsend : sendKexInit info s = .ok (s1, k))
+    (p : KexInit) (seqno : Nat) (hseq : SeqOK s1 seqno) :
+    (parseKexInit info s1 p seqno).map (fun r => view s1.serverMode r.2)
+      = outcome (if s1.serverMode then spec p k else spec k p) := by
+  have hw1 := wf_send hw hsend
+  obtain ⟨a1, a2, a3, a4, a5, a6, a7, a8⟩ := advertised_eq_accepted hi hw hsend
+  unfold parseKexInit
+  have hcond : ((scanMarkers s1 p.kex none s1.agreedStrict).2 && !s1.initialKexDone && seqno != 0) = false := by
+    rcases hseq with h | h <;> simp [h]
+  simp only [hcond, Bool.false_eq_true, if_false]
+  refine Eq.trans (map_lift _ _ _) ?_
+  have hcore := negotiate_core info { s1 with agreedStrict := (scanMarkers s1 p.kex none s1.agreedStrict).2 }
+    hw1 (stripMarkers p.kex) p (scanMarkers s1 p.kex none s1.agreedStrict).1
+  rw [hcore]
+  cases hsm : s1.serverMode
+  · simp only [spec, fc, ownKeys, hsm, a1, a2, a3, a4, a5, a6, a7, a8, Bool.false_eq_true, if_false]
+    rfl
+  · simp only [spec, fc, ownKeys, hsm, a1, a2, a3, a4, a5, a6, a7, a8, if_true]
+    rfl
+
+/-- `spec` fails exactly when some category has no common algorithm. -/
+theorem spec_none_iff (kc ks : KexInit) :
+    spec kc ks = none ↔
+      (firstCommon (stripMarkers kc.kex) (stripMarkers ks.kex) = none ∨ firstCommon kc.keys ks.keys = none ∨
+       firstCommon kc.cEnc ks.cEnc = none ∨ firstCommon kc.sEnc ks.sEnc = none ∨
+       firstCommon kc.cMac ks.cMac = none ∨ firstCommon kc.sMac ks.sMac = none ∨
+       firstCommon kc.cComp ks.cComp = none ∨ firstCommon kc.sComp ks.sComp = none) := by
+  unfold spec
+  cases firstCommon (stripMarkers kc.kex) (stripMarkers ks.kex) <;> cases firstCommon kc.keys ks.keys <;>
+  cases firstCommon kc.cEnc ks.cEnc <;> cases firstCommon kc.sEnc ks.sEnc <;>
+  cases firstCommon kc.cMac ks.cMac <;> cases firstCommon kc.sMac ks.sMac <;>
+  cases firstCommon kc.cComp ks.cComp <;> cases firstCommon kc.sComp ks.sComp <;> simp [allSome]
+
+/-- **`IncompatiblePeer` exactly when some category has no common algorithm** (and no other error
+    is possible once the strict-kex sequence check is out of the way). -/
+theorem incompatible_iff {info : Info} {s s1 : Side} {k : KexInit}
+    (hi : infoOK info = true) (hw : s.wf info = true) (hsend : sendKexInit info s = .ok (s1, k))
+    (p : KexInit) (seqno : Nat) (hseq : SeqOK s1 seqno) :
+    (parseKexInit info s1 p seqno = .error .incompatible ↔
+      (if s1.serverMode then spec p k else spec k p) = none) ∧
+    (∀ e, parseKexInit info s1 p seqno = .error e → e = .incompatible) := by
+  have h := follows_rfc hi hw hsend p seqno hseq
+  cases hx : parseKexInit info s1 p seqno with
+  | error e =>
+    rw [hx] at h
+    cases ho : (if s1.serverMode then spec p k else spec k p) with
+    | none =>
+      rw [ho] at h
+      have : e = .incompatible := by simpa [Except.map, outcome] using h
+      subst this
+      exact ⟨⟨fun _ => rfl, fun _ => rfl⟩, fun e he => (by injection he with he; exact he.symm)⟩
+    | some v => rw [ho] at h; simp [Except.map, outcome] at h
+  | ok r =>
+    rw [hx] at h
+    cases ho : (if s1.serverMode then spec p k else spec k p) with
+    | none => rw [ho] at h; simp [Except.map, outcome] at h
+    | some v => exact ⟨⟨fun h' => (by cases h'), fun h' => (by cases h')⟩, fun e he => (by cases he)⟩
+
+/-! ## two paramiko peers -/
+
+private theorem ok_names {l : List Name} (h : ∀ a ∈ l, nameOK a = true) :
+    ([] : Name) ∉ l ∧ ∀ a ∈ l, (44 : UInt8) ∉ a := by
+  refine ⟨fun hm => ?_, fun a ha => (nameOK_iff.mp (h a ha)).2.1⟩
+  exact (nameOK_iff.mp (h _ hm)).1 rfl
+
+/-- names on a well-formed side's KEXINIT: real names, or (kex list only) the two markers -/
+private theorem sent_names {info : Info} {s s1 : Side} {k : KexInit}
+    (hi : infoOK info = true) (hw : s.wf info = true) (h : sendKexInit info s = .ok (s1, k)) :
+    (∀ a ∈ k.kex, (44 : UInt8) ∉ a) ∧ (∀ a ∈ stripMarkers k.kex, nameOK a = true) ∧
+    (∀ a ∈ k.keys, nameOK a = true) ∧
+    (∀ a ∈ k.cEnc, nameOK a = true) ∧ (∀ a ∈ k.sEnc, nameOK a = true) ∧
+    (∀ a ∈ k.cMac, nameOK a = true) ∧ (∀ a ∈ k.sMac, nameOK a = true) ∧
+    (∀ a ∈ k.cComp, nameOK a = true) ∧ (∀ a ∈ k.sComp, nameOK a = true) := by
+  have hw1 := wf_send hw h
+  obtain ⟨a1, a2, a3, a4, a5, a6, a7, a8⟩ := advertised_eq_accepted hi hw h
+  obtain ⟨n1, n2, n3, n4, n5⟩ := accepted_names_ok hi hw1
+  have hkeys : ∀ a ∈ ownKeys s1, nameOK a = true := by
+    intro a ha
+    unfold ownKeys at ha
+    split at ha
+    · exact n2 a (availableServerKeys_sub ha).1
+    · exact n2 a ha
+  refine ⟨?_, by rw [a1]; exact n1, by rw [a2]; exact hkeys, by rw [a3]; exact n3, by rw [a4]; exact n3,
+    by rw [a5]; exact n4, by rw [a6]; exact n4, by rw [a7]; exact n5, by rw [a8]; exact n5⟩
+  intro a ha
+  by_cases hm : isMarker a = true
+  · obtain ⟨_, hk⟩ := send_spec h
+    rw [hk] at ha
+    have hnm : ∀ b ∈ s1.preferredKex, isMarker b = false :=
+      fun b hb => (nameOK_iff.mp (n1 b hb)).2.2
+    simp only [List.mem_append] at ha
+    have hc1 : (44 : UInt8) ∉ extInfoC := by decide
+    have hc2 : ∀ b, (44 : UInt8) ∉ strictMarker b := by intro b; cases b <;> decide
+    rcases ha with ha | ha
+    · split at ha
+      · exact absurd hm (by simp [hnm a ha])
+      · rcases List.mem_append.mp ha with ha | ha
+        · exact absurd hm (by simp [hnm a ha])
+        · simp at ha; subst ha; exact hc1
+    · split at ha
+      · simp at ha; subst ha; exact hc2 _
+      · simp at ha
+  · have : a ∈ stripMarkers k.kex := stripMarkers_mem.mpr ⟨ha, by simpa using hm⟩
+    rw [a1] at this
+    exact (nameOK_iff.mp (n1 a this)).2.1
+
+private theorem fcw_right {c s : List Name} (hc : ∀ a ∈ c, nameOK a = true) (hs : ∀ a ∈ s, nameOK a = true) :
+    firstCommon c (viaWire s) = firstCommon c s :=
+  firstCommon_viaWire_right (ok_names hc).1 (ok_names hs).2
+
+private theorem fcw_left {c s : List Name} (hc : ∀ a ∈ c, nameOK a = true) (hs : ∀ a ∈ s, nameOK a = true) :
+    firstCommon (viaWire c) s = firstCommon c s :=
+  firstCommon_viaWire_left (ok_names hs).1 (ok_names hc).2
+
+private theorem fc_strip_right {c s : List Name} (hc : ∀ a ∈ stripMarkers c, nameOK a = true)
+    (hs : ∀ a ∈ s, (44 : UInt8) ∉ a) :
+    firstCommon (stripMarkers c) (stripMarkers (viaWire s)) = firstCommon (stripMarkers c) (stripMarkers s) := by
+  rw [stripMarkers_viaWire hs]
+  by_cases h : s = []
+  · subst h
+    simp only [if_true]
+    have e : stripMarkers ([] : List Name) = [] := rfl
+    rw [e, firstCommon_nil_right, firstCommon_eq_none]
+    intro a ha hmem
+    simp at hmem
+    exact (ok_names hc).1 (hmem ▸ ha)
+  · simp [h]
+
+private theorem fc_strip_left {c s : List Name} (hs : ∀ a ∈ stripMarkers s, nameOK a = true)
+    (hc : ∀ a ∈ c, (44 : UInt8) ∉ a) :
+    firstCommon (stripMarkers (viaWire c)) (stripMarkers s) = firstCommon (stripMarkers c) (stripMarkers s) := by
+  rw [stripMarkers_viaWire hc]
+  by_cases h : c = []
+  · subst h
+    simp only [if_true]
+    have e : stripMarkers ([] : List Name) = [] := rfl
+    rw [e, firstCommon_nil_left, firstCommon_eq_none]
+    intro a ha
+    simp at ha
+    exact ha ▸ (ok_names hs).1
+  · simp [h]
+
+/-- **Both peers agree.**  A well-formed paramiko client and a well-formed paramiko server that
+    exchange their KEXINITs over the wire compute the same tuple — the RFC choice on the two lists
+    as sent — or both raise `IncompatiblePeer`. -/
+theorem peers_agree {info : Info} {c c1 s s1 : Side} {kc ks : KexInit}
+    (hi : infoOK info = true) (hwc : c.wf info = true) (hws : s.wf info = true)
+    (hc : c.serverMode = false) (hs : s.serverMode = true)
+    (hsc : sendKexInit info c = .ok (c1, kc)) (hss : sendKexInit info s = .ok (s1, ks))
+    (nc ns : Nat) (hqc : SeqOK c1 nc) (hqs : SeqOK s1 ns) :
+    (parseKexInit info c1 ks.viaWire nc).map (fun r => view false r.2) = outcome (spec kc ks) ∧
+    (parseKexInit info s1 kc.viaWire ns).map (fun r => view true r.2) = outcome (spec kc ks) := by
+  have hc1 : c1.serverMode = false := by rw [(send_spec hsc).1]; exact hc
+  have hs1 : s1.serverMode = true := by rw [(send_spec hss).1]; exact hs
+  have h1 := follows_rfc hi hwc hsc ks.viaWire nc hqc
+  have h2 := follows_rfc hi hws hss kc.viaWire ns hqs
+  rw [hc1] at h1
+  rw [hs1] at h2
+  simp only [Bool.false_eq_true, if_false] at h1
+  simp only [if_true] at h2
+  obtain ⟨c0, c1', c2, c3, c4, c5, c6, c7, c8⟩ := sent_names hi hwc hsc
+  obtain ⟨s0, s1', s2, s3, s4, s5, s6, s7, s8⟩ := sent_names hi hws hss
+  refine ⟨h1.trans ?_, h2.trans ?_⟩
+  · congr 1
+    simp only [spec, KexInit.viaWire, fc_strip_right c1' s0, fcw_right c2 s2, fcw_right c3 s3, fcw_right c4 s4,
+      fcw_right c5 s5, fcw_right c6 s6, fcw_right c7 s7, fcw_right c8 s8]
+  · congr 1
+    simp only [spec, KexInit.viaWire, fc_strip_left s1' c0, fcw_left c2 s2, fcw_left c3 s3, fcw_left c4 s4,
+      fcw_left c5 s5, fcw_left c6 s6, fcw_left c7 s7, fcw_left c8 s8]
+
+/-! ## never a disabled algorithm, never a marker (no well-formedness needed) -/
+
+/-- inversion: every agreed name was chosen by the first-common rule from the side's own accepted list -/
+private theorem negotiate_ok {info : Info} {s : Side} {kl : List Name} {p : KexInit} {ext : Option Name}
+    {a : Agreed} (h : negotiate info s kl p ext = .ok a) :
+    fc s.serverMode s.preferredKex kl = some a.kex ∧
+    fc s.serverMode (ownKeys s) p.keys = some a.hostKey ∧
+    fc s.serverMode s.preferredCiphers (if s.serverMode then p.sEnc else p.cEnc) = some a.localCipher ∧
+    fc s.serverMode s.preferredCiphers (if s.serverMode then p.cEnc else p.sEnc) = some a.remoteCipher ∧
+    fc s.serverMode s.preferredMacs (if s.serverMode then p.sMac else p.cMac) = some a.localMac ∧
+    fc s.serverMode s.preferredMacs (if s.serverMode then p.cMac else p.sMac) = some a.remoteMac ∧
+    fc s.serverMode s.preferredComp (if s.serverMode then p.sComp else p.cComp) = some a.localComp ∧
+    fc s.serverMode s.preferredComp (if s.serverMode then p.cComp else p.sComp) = some a.remoteComp := by
+  unfold negotiate at h
+  simp only [firstOr_agree, agree_len0, agree_headD] at h
+  unfold ownKeys
+  cases h1 : fc s.serverMode s.preferredKex kl <;> rw [h1] at h <;> simp only [] at h
+  · cases h
+  split at h
+  · cases h
+  cases h2 : fc s.serverMode (if s.serverMode = true then s.availableServerKeys else s.preferredKeys) p.keys <;>
+    rw [h2] at h <;> simp only [] at h
+  · cases h
+  split at h
+  · cases h
+  cases h3 : fc s.serverMode s.preferredCiphers (if s.serverMode = true then p.sEnc else p.cEnc) <;>
+  cases h4 : fc s.serverMode s.preferredCiphers (if s.serverMode = true then p.cEnc else p.sEnc) <;>
+  cases h5 : fc s.serverMode s.preferredMacs (if s.serverMode = true then p.sMac else p.cMac) <;>
+  cases h6 : fc s.serverMode s.preferredMacs (if s.serverMode = true then p.cMac else p.sMac) <;>
+  cases h7 : fc s.serverMode s.preferredComp (if s.serverMode = true then p.sComp else p.cComp) <;>
+  cases h8 : fc s.serverMode s.preferredComp (if s.serverMode = true then p.cComp else p.sComp) <;>
+  simp [h3, h4, h5, h6, h7, h8] at h <;>
+  (subst h; simp)
+
+private theorem parse_ok {info : Info} {s s' : Side} {p : KexInit} {seqno : Nat} {a : Agreed}
+    (h : parseKexInit info s p seqno = .ok (s', a)) :
+    ∃ s0 ext, s0.serverMode = s.serverMode ∧ s0.preferredKex = s.preferredKex ∧ ownKeys s0 = ownKeys s ∧
+      s0.preferredCiphers = s.preferredCiphers ∧ s0.preferredMacs = s.preferredMacs ∧
+      s0.preferredComp = s.preferredComp ∧ negotiate info s0 (stripMarkers p.kex) p ext = .ok a := by
+  unfold parseKexInit at h
+  simp only [] at h
+  split at h
+  · cases h
+  · split at h
+    · cases h
+    · rename_i a' hn
+      injection h with h
+      injection h with _ h2
+      subst h2
+      exact ⟨_, _, rfl, rfl, rfl, rfl, rfl, rfl, hn⟩
+
+/-- **Never a disabled algorithm.**  Whatever the configuration (well-formed or not) and whatever
+    the peer sent: no agreed name is listed in the local `disabled_algorithms` of its category —
+    including the `-cert-v01@openssh.com` host key variants. -/
+theorem never_disabled {info : Info} {s s' : Side} {p : KexInit} {seqno : Nat} {a : Agreed}
+    (h : parseKexInit info s p seqno = .ok (s', a)) :
+    a.kex ∉ s.disKex ∧ a.hostKey ∉ s.disKeys ∧
+    a.localCipher ∉ s.disCiphers ∧ a.remoteCipher ∉ s.disCiphers ∧
+    a.localMac ∉ s.disMacs ∧ a.remoteMac ∉ s.disMacs ∧
+    a.localComp ∉ s.disComp ∧ a.remoteComp ∉ s.disComp := by
+  obtain ⟨s0, ext, e0, e1, e2, e3, e4, e5, hn⟩ := parse_ok h
+  obtain ⟨n1, n2, n3, n4, n5, n6, n7, n8⟩ := negotiate_ok hn
+  rw [e1] at n1; rw [e2] at n2; rw [e3] at n3 n4; rw [e4] at n5 n6; rw [e5] at n7 n8
+  refine ⟨(mem_filterAlg.mp (fc_some n1).1).2, ?_, (mem_filterAlg.mp (fc_some n3).1).2,
+    (mem_filterAlg.mp (fc_some n4).1).2, (mem_filterAlg.mp (fc_some n5).1).2,
+    (mem_filterAlg.mp (fc_some n6).1).2, (mem_filterAlg.mp (fc_some n7).1).2,
+    (mem_filterAlg.mp (fc_some n8).1).2⟩
+  have hk := (fc_some n2).1
+  unfold ownKeys at hk
+  split at hk
+  · exact mem_preferredKeys (availableServerKeys_sub hk).1
+  · exact mem_preferredKeys hk
+
+/-- **Markers are never selected (kex).**  For every configuration and every peer KEXINIT, with
+    `ext-info-*` / `kex-strict-*` names in any position and any number: the agreed kex algorithm is
+    not a marker, and it is a name the peer really listed. -/
+theorem kex_never_marker {info : Info} {s s' : Side} {p : KexInit} {seqno : Nat} {a : Agreed}
+    (h : parseKexInit info s p seqno = .ok (s', a)) :
+    isMarker a.kex = false ∧ a.kex ∈ p.kex ∧ a.kex ∈ s.preferredKex := by
+  obtain ⟨s0, ext, _, e1, _, _, _, _, hn⟩ := parse_ok h
+  obtain ⟨n1, _⟩ := negotiate_ok hn
+  rw [e1] at n1
+  have := fc_some n1
+  exact ⟨(stripMarkers_mem.mp this.2).2, (stripMarkers_mem.mp this.2).1, this.1⟩
+
+/-- **No marker in any category** for a well-formed side: every agreed name is a real algorithm
+    name of the tables (non-empty, comma-free, not `ext-info-*` / `kex-strict-*`). -/
+theorem no_marker_selected {info : Info} {s s' : Side} {p : KexInit} {seqno : Nat} {a : Agreed}
+    (hi : infoOK info = true) (hw : s.wf info = true) (h : parseKexInit info s p seqno = .ok (s', a)) :
+    nameOK a.kex = true ∧ nameOK a.hostKey = true ∧ nameOK a.localCipher = true ∧
+    nameOK a.remoteCipher = true ∧ nameOK a.localMac = true ∧ nameOK a.remoteMac = true ∧
+    nameOK a.localComp = true ∧ nameOK a.remoteComp = true := by
+  obtain ⟨s0, ext, e0, e1, e2, e3, e4, e5, hn⟩ := parse_ok h
+  obtain ⟨n1, n2, n3, n4, n5, n6, n7, n8⟩ := negotiate_ok hn
+  rw [e1] at n1; rw [e2] at n2; rw [e3] at n3 n4; rw [e4] at n5 n6; rw [e5] at n7 n8
+  obtain ⟨o1, o2, o3, o4, o5⟩ := accepted_names_ok hi hw
+  refine ⟨o1 _ (fc_some n1).1, ?_, o3 _ (fc_some n3).1, o3 _ (fc_some n4).1, o4 _ (fc_some n5).1,
+    o4 _ (fc_some n6).1, o5 _ (fc_some n7).1, o5 _ (fc_some n8).1⟩
+  have hk := (fc_some n2).1
+  unfold ownKeys at hk
+  split at hk
+  · exact o2 _ (availableServerKeys_sub hk).1
+  · exact o2 _ hk
+
+/-- **Nothing disabled is even offered.**  Every name on a KEXINIT paramiko sends is absent from the
+    local `disabled_algorithms` of its category; the only exceptions are the two marker
+    pseudo-algorithms of the kex list (governed by `strict_kex`, not by `disabled_algorithms`). -/
+theorem advertised_never_disabled {info : Info} {s s1 : Side} {k : KexInit}
+    (h : sendKexInit info s = .ok (s1, k)) :
+    (∀ a ∈ k.kex, a ∈ s.disKex → a = extInfoC ∨ a = strictMarker s.serverMode) ∧
+    (∀ a ∈ k.keys, a ∉ s.disKeys) ∧
+    (∀ a ∈ k.cEnc, a ∉ s.disCiphers) ∧ (∀ a ∈ k.sEnc, a ∉ s.disCiphers) ∧
+    (∀ a ∈ k.cMac, a ∉ s.disMacs) ∧ (∀ a ∈ k.sMac, a ∉ s.disMacs) ∧
+    (∀ a ∈ k.cComp, a ∉ s.disComp) ∧ (∀ a ∈ k.sComp, a ∉ s.disComp) := by
+  obtain ⟨hs1, hk⟩ := send_spec h
+  have d1 : s1.disKex = s.disKex := by rw [hs1]
+  have d2 : s1.disKeys = s.disKeys := by rw [hs1]
+  have d3 : s1.disCiphers = s.disCiphers := by rw [hs1]
+  have d4 : s1.disMacs = s.disMacs := by rw [hs1]
+  have d5 : s1.disComp = s.disComp := by rw [hs1]
+  have c : ∀ a ∈ s1.preferredCiphers, a ∉ s.disCiphers := fun a ha => d3 ▸ (mem_filterAlg.mp ha).2
+  have m : ∀ a ∈ s1.preferredMacs, a ∉ s.disMacs := fun a ha => d4 ▸ (mem_filterAlg.mp ha).2
+  have z : ∀ a ∈ s1.preferredComp, a ∉ s.disComp := fun a ha => d5 ▸ (mem_filterAlg.mp ha).2
+  have kx : ∀ a ∈ s1.preferredKex, a ∉ s.disKex := fun a ha => d1 ▸ (mem_filterAlg.mp ha).2
+  rw [hk]
+  refine ⟨?_, ?_, c, c, m, m, z, z⟩
+  · intro a ha hd
+    simp only [List.mem_append] at ha
+    rcases ha with ha | ha
+    · split at ha
+      · exact absurd hd (kx a ha)
+      · rcases List.mem_append.mp ha with ha | ha
+        · exact absurd hd (kx a ha)
+        · simp at ha; exact Or.inl ha
+    · split at ha
+      · simp at ha; exact Or.inr ha
+      · simp at ha
+  · intro a ha
+    have ha' : a ∈ ownKeys s1 := ha
+    unfold ownKeys at ha'
+    split at ha'
+    · exact d2 ▸ mem_preferredKeys (availableServerKeys_sub ha').1
+    · exact d2 ▸ mem_preferredKeys ha'
+
+private theorem filter_gex_nil (l dis : List Name) :
+    (filterAlg (l.filter fun k => !isGex k) dis).filter isGex = [] := by
+  rw [List.filter_eq_nil_iff]
+  intro a ha
+  have := (List.mem_filter.mp (mem_filterAlg.mp ha).1).2
+  simpa using this
+
+/-- **The adjustment is stable**: a second `_send_kex_init` (rekey) from the state the first one
+    left changes nothing and advertises the same lists. -/
+theorem send_idempotent {info : Info} {s s1 : Side} {k : KexInit}
+    (h : sendKexInit info s = .ok (s1, k)) : sendKexInit info s1 = .ok (s1, k) := by
+  obtain ⟨hs1, hk⟩ := send_spec h
+  have hm1 : s1.mustDropGex = false := by
+    by_cases hm : s.mustDropGex = true
+    · have hp : s1.prefKex = s.prefKex.filter (fun k => !isGex k) := by rw [hs1]; simp [hm]
+      unfold Side.mustDropGex Side.preferredKex
+      rw [hp, filter_gex_nil]; simp
+    · rw [hs1]
+      simp only [hm, Bool.false_eq_true, if_false]
+  have e1 : s1.serverMode = s.serverMode := by rw [hs1]
+  have e2 : s1.advertiseStrict = s.advertiseStrict := by rw [hs1]
+  unfold sendKexInit
+  simp only [hm1, Bool.false_eq_true, if_false]
+  rw [hk, e1, e2]
+  by_cases hst : s.advertiseStrict = true <;> by_cases hsm : s.serverMode = true <;>
+    simp [hst, hsm, ownKeys, e1]
+
+/-- `SecurityOptions.kex = x` keeps the well-formedness invariant (and refuses foreign names). -/
+theorem setKex_wf {info : Info} {s s' : Side} {x : List Name} (hw : s.wf info = true)
+    (h : setKex info s x = .ok s') : s'.wf info = true ∧ s'.prefKex = x := by
+  unfold setKex at h
+  split at h
+  · cases h
+  · rename_i hx
+    injection h with h
+    subst h
+    obtain ⟨_, w2, w3, w4, w5⟩ := wf_parts hw
+    have hx' : ∀ a ∈ x, a ∈ info.kex := by
+      intro a ha
+      have hlen : (x.filter fun n => !info.kex.contains n).length = 0 := by omega
+      have := List.filter_eq_nil_iff.mp (List.eq_nil_of_length_eq_zero hlen) a ha
+      simpa using this
+    refine ⟨?_, rfl⟩
+    simp only [Side.wf, Bool.and_eq_true, List.all_eq_true]
+    exact ⟨⟨⟨⟨fun a ha => by simpa using hx' a ha, by simpa using w2⟩, by simpa using w3⟩,
+      by simpa using w4⟩, by simpa using w5⟩
+
+/-! ## the tables of the source (regenerated on every run) -/
+
+/-- every name of `_kex_info`, `_key_info` (and its cert variant), `_cipher_info`, `_mac_info`,
+    `_compression_info` is non-empty, comma-free and not a marker pseudo-algorithm -/
+theorem generated_info_ok : infoOK PV.Generated.C05.info = true := by decide +kernel
+
+/-- a transport with the class-level preference tuples, no disabled algorithms -/
+def defaultSide (server : Bool) (serverKeys : List Name) (hasModuli : Bool) : Side :=
+  { serverMode := server, prefKex := PV.Generated.C05.preferredKex, prefKeys := PV.Generated.C05.preferredKeys,
+    prefCiphers := PV.Generated.C05.preferredCiphers, prefMacs := PV.Generated.C05.preferredMacs,
+    prefComp := PV.Generated.C05.preferredCompression,
+    disKex := [], disKeys := [], disCiphers := [], disMacs := [], disComp := [],
+    serverKeys := serverKeys, hasModuli := hasModuli, advertiseStrict := true, agreedStrict := false,
+    initialKexDone := false }
+
+/-- the class-level preference tuples (also with the GSS kex names prepended, `gss_kex=True`) only
+    hold names of the tables: the default configuration is well-formed -/
+theorem default_wf (server : Bool) (serverKeys : List Name) (hasModuli : Bool) :
+    (defaultSide server serverKeys hasModuli).wf PV.Generated.C05.info = true ∧
+    ({ defaultSide server serverKeys hasModuli with
+        prefKex := PV.Generated.C05.preferredGssKex ++ PV.Generated.C05.preferredKex } : Side).wf
+      PV.Generated.C05.info = true := by
+  have h1 : PV.Generated.C05.preferredKex.all PV.Generated.C05.info.kex.contains = true := by decide +kernel
+  have h1' : (PV.Generated.C05.preferredGssKex ++ PV.Generated.C05.preferredKex).all
+      PV.Generated.C05.info.kex.contains = true := by decide +kernel
+  have h2 : PV.Generated.C05.preferredKeys.all PV.Generated.C05.info.keys.contains = true := by decide +kernel
+  have h3 : PV.Generated.C05.preferredCiphers.all PV.Generated.C05.info.ciphers.contains = true := by
+    decide +kernel
+  have h4 : PV.Generated.C05.preferredMacs.all PV.Generated.C05.info.macs.contains = true := by decide +kernel
+  have h5 : PV.Generated.C05.preferredCompression.all PV.Generated.C05.info.compression.contains = true := by
+    decide +kernel
+  constructor <;> simp only [Side.wf, defaultSide, h1, h1', h2, h3, h4, h5, Bool.and_self]
+
+/-! ## the repaired defect, and non-vacuity -/
+
+/-- `"diffie-hellman-group-exchange-sha256"` -/
+def gex256 : Name := gexPrefix ++ [50, 53, 54]
+/-- `"ssh-ed25519"` -/
+def ed25519 : Name := [115, 115, 104, 45, 101, 100, 50, 53, 53, 49, 57]
+
+/-- a client that prefers group exchange -/
+def gexFirstClient : Side :=
+  { defaultSide false [] false with
+    prefKex := gex256 :: PV.Generated.C05.preferredKex.filter (fun n => n != gex256) }
+
+/-- a server with one host key, default preferences and **no moduli file** -/
+def modulilessServer : Side := defaultSide true [ed25519] false
+
+/-- `_send_kex_init` as it was before commit 857cd48: the kex list is built *before* the
+    group-exchange methods are dropped from `_preferred_kex` (kept only for the witness below). -/
+def sendKexInitStale (info : Info) (s : Side) : Except Err (Side × KexInit) :=
+  match sendKexInit info s with
+  | .error e => .error e
+  | .ok (s1, k) =>
+    let kexAlgos := if s.serverMode then s.preferredKex else s.preferredKex ++ [extInfoC]
+    .ok (s1, { k with kex := if s1.advertiseStrict then kexAlgos ++ [strictMarker s1.serverMode] else kexAlgos })
+
+private def bothViews (send : Info → Side → Except Err (Side × KexInit)) : Option (Except Err View × Except Err View) :=
+  match sendKexInit PV.Generated.C05.info gexFirstClient, send PV.Generated.C05.info modulilessServer with
+  | .ok (c1, kc), .ok (s1, ks) =>
+    some ((parseKexInit PV.Generated.C05.info c1 ks.viaWire 0).map (fun r => view false r.2),
+          (parseKexInit PV.Generated.C05.info s1 kc.viaWire 0).map (fun r => view true r.2))
+  | _, _ => none
+
+/-- **Witness of the repaired defect**: with the old ordering the moduli-less server advertised
+    group exchange, the client chose it, the server chose something else — the peers disagreed. -/
+theorem stale_advertisement_witness :
+    (match bothViews sendKexInitStale with
+     | some (.ok vc, .ok vs) => vc.kex == gex256 && vs.kex != gex256
+     | _ => false) = true := by decide +kernel
+
+/-- non-vacuity of `peers_agree` on the same pair with the repaired `_send_kex_init`: both sides
+    succeed, agree, and the agreed method is neither group exchange nor a marker -/
+example :
+    (match bothViews sendKexInit with
+     | some (.ok vc, .ok vs) => vc == vs && vc.kex != gex256 && !isMarker vc.kex
+     | _ => false) = true := by decide +kernel
+
+example : gexFirstClient.wf PV.Generated.C05.info = true ∧ modulilessServer.wf PV.Generated.C05.info = true := by
+  decide +kernel
+
+private def noCipherClient : Side :=
+  { defaultSide false [] false with disCiphers := PV.Generated.C05.preferredCiphers }
+
+/-- non-vacuity of `incompatible_iff`: a client with every cipher disabled is refused by both peers -/
+example :
+    (match sendKexInit PV.Generated.C05.info noCipherClient,
+           sendKexInit PV.Generated.C05.info modulilessServer with
+     | .ok (c1, kc), .ok (s1, ks) =>
+       (match parseKexInit PV.Generated.C05.info c1 ks.viaWire 0, parseKexInit PV.Generated.C05.info s1 kc.viaWire 0 with
+        | .error .incompatible, .error .incompatible => true
+        | _, _ => false)
+     | _, _ => false) = true := by decide +kernel
+
+private def markerPeer : KexInit :=
+  { kex := [strictMarker true, extInfoC, strictMarker true, gex256, extInfoC],
+    keys := [ed25519], cEnc := PV.Generated.C05.preferredCiphers,
+    sEnc := PV.Generated.C05.preferredCiphers, cMac := PV.Generated.C05.preferredMacs,
+    sMac := PV.Generated.C05.preferredMacs, cComp := PV.Generated.C05.preferredCompression,
+    sComp := PV.Generated.C05.preferredCompression }
+
+/-- non-vacuity of `kex_never_marker`: a peer that lists markers first, in the middle and twice -/
+example :
+    (match parseKexInit PV.Generated.C05.info gexFirstClient markerPeer 0 with
+     | .ok (s', a) => a.kex == gex256 && s'.agreedStrict && a.remoteExtInfo == some extInfoC
+     | .error _ => false) = true := by decide +kernel
 
 end PV.Props.C05
